@@ -23,7 +23,7 @@ RULE = ('cases = random flat machines (2-6 states, plain or Enum states, labels,
         'leaf or compound), add_transition, remove_transition (with and without source/dest filters); in 40 % of '
         'the cases with events (non-Enum, all states simple) 1-3 on_enter callbacks fire follow-up events from inside '
         'the callback (chains A -e1-> B, on_enter of B fires e2, B -e2-> C; budget 1-3 per call; also in on_exit lists, '
-        'and callbacks that regenerate the graph); 30 % of all cases use the async graph machine classes; every 9th '
+        'and callbacks that regenerate the graph); 30 % of all cases use the async, 20 % the locked graph machine classes; every 9th '
         'case is a static "wide" case (more states / transitions, no history).  After construction and after '
         'every step the full and the region-of-interest diagram are parsed and compared (edge lines as a set, '
         'labels of one edge as a multiset).  Non-trivial: the model state changed at least once during the '
@@ -41,8 +41,9 @@ ASSUMPTIONS = ['only the Mermaid backend exists in this sandbox (python modules 
                '30 % of the cases run on AsyncGraphMachine / HierarchicalAsyncGraphMachine (asyncio.run around every '
                'trigger, plain callbacks only: an async machine runs a callback list concurrently and follow-up events need '
                'coroutine callbacks - task scheduling is C08\'s subject; no custom transition labels: AsyncTransition has no '
-               'label keyword; compound states are not added after construction on the async hierarchical class: the fix of '
-               'D26 does not reach it, reported); the locked graph machine classes are not exercised',
+               'label keyword; compound states added after construction are in the envelope for every class since D43); '
+               '20 % of the cases run on LockedGraphMachine / LockedHierarchicalGraphMachine '
+               '(same synchronous runner, one thread)',
                'transitions are registered at the root scope with full state names; tags and timeout state '
                'attributes (show_state_attributes) are not covered; header lines (title, direction, classDef) and '
                'indentation of the Mermaid text are skipped by the parser',
@@ -63,8 +64,8 @@ CBS = ['cbA', 'cbB', 'cbC']
 LABEL_ALPHA = 'abcXYZ019 .-+()[]!&/'
 # compound states added after construction (stale root 'children' in the markup, see the final report)
 ADD_COMPOUND = True
-# the same on HierarchicalAsyncGraphMachine (the fix of D26 does not reach it: reported)
-ASYNC_ADD_COMPOUND = False
+# the same on HierarchicalAsyncGraphMachine / LockedHierarchicalGraphMachine (D43, fixed)
+ASYNC_ADD_COMPOUND = True
 # callbacks that fire a follow-up event from inside the callback (nested processing on an unqueued machine)
 ACT_CBS = ['fwA', 'fwB', 'fwC']
 # callbacks that regenerate the model's graph from inside the callback: model.get_graph(force_new=True)
@@ -163,7 +164,7 @@ def gen(rng, i, tier):
     opts = dict(conds=rng.random() < 0.5, auto=rng.random() < 0.25, attrs=rng.random() < 0.35)
     case = dict(kind='hsm' if hsm else 'flat', enum=use_enum, opts=opts, states=forest, trans=trans,
                 initial=rng.choice(paths), ops=[], val=val, acts={}, budget=0, regen=[],
-                cls='async' if rng.random() < 0.3 else 'sync')
+                cls=_pick_cls(rng.random()))
     if nested:
         _add_acts(rng, case, val)
     if wide:
@@ -206,6 +207,11 @@ def gen(rng, i, tier):
                         and (dst is None or u['dst'] == dst))
             cur_trans = [u for u in cur_trans if not gone(u)]
     return _fit_class(case)
+
+
+def _pick_cls(r):
+    """machine class family: asyncio 30 %, locked 20 %, plain 50 %"""
+    return 'async' if r < 0.3 else ('locked' if r < 0.5 else 'sync')
 
 
 def _fit_class(case):
@@ -436,6 +442,15 @@ def impl(case):
 
     class HsmM(HierarchicalGraphMachine):
         state_cls = LNested
+
+    if case.get('cls') == 'locked':
+        from transitions.extensions import LockedGraphMachine, LockedHierarchicalGraphMachine
+
+        class FlatM(LockedGraphMachine):  # noqa: F811
+            state_cls = LState
+
+        class HsmM(LockedHierarchicalGraphMachine):  # noqa: F811
+            state_cls = LNested
 
     if is_async:
         class LAState(AsyncState):
@@ -723,7 +738,7 @@ def shrink_candidates(case):
         c = copy.deepcopy(case)
         c['regen'].remove(cb)
         yield c
-    if case.get('cls') == 'async':
+    if case.get('cls') in ('async', 'locked'):
         c = copy.deepcopy(case)
         c['cls'] = 'sync'
         yield c
